@@ -52,6 +52,10 @@ func init() {
 		if prev, ok := fr.i.ps.ChoiceVals[strArg(a[0])]; ok {
 			return prev // same name, same value (like the scalar nondets)
 		}
+		if fc, ok := fr.i.ps.FixedChoices[strArg(a[0])]; ok {
+			fr.i.ps.ChoiceVals[strArg(a[0])] = fc
+			return fc
+		}
 		c := fr.i.ps.choose(n)
 		fr.i.ps.Choices = append(fr.i.ps.Choices, fmt.Sprintf("%s=%d", strArg(a[0]), c))
 		fr.i.ps.ChoiceVals[strArg(a[0])] = c
@@ -75,7 +79,13 @@ func init() {
 		return nil
 	})
 	reg("vxTag", func(fr *frame, a []value) value {
-		fr.i.ps.Tags = append(fr.i.ps.Tags, strArg(a[0]))
+		t := strArg(a[0])
+		for _, x := range fr.i.ps.Tags {
+			if x == t {
+				return nil
+			}
+		}
+		fr.i.ps.Tags = append(fr.i.ps.Tags, t)
 		return nil
 	})
 	reg("vxUntag", func(fr *frame, a []value) value {
@@ -121,6 +131,9 @@ func init() {
 	reg("vxLockViolations", func(fr *frame, a []value) value {
 		if fr.i.lockMon == nil {
 			return 0
+		}
+		for _, v := range fr.i.lockMon.violations {
+			fr.i.ps.Observes = append(fr.i.ps.Observes, "lock-discipline: "+v)
 		}
 		return len(fr.i.lockMon.violations)
 	})
